@@ -117,6 +117,29 @@ structure Cache where
   keyRun : Option Nat := none
   deriving DecidableEq, Repr
 
+/-- H264Cache.keyFragment: a non-start FU-A/FU-B fragment of an IDR slice -/
+def keyFragment264 (k : NalConsts) (pl : List UInt8) : Bool :=
+  if pl.length < 3 then false
+  else
+    match pl with
+    | b0 :: b1 :: _ =>
+      let t := b0.toNat % 32
+      decide (k.fuLo264 ≤ t ∧ t ≤ k.fuHi264) && decide (b1.toNat / 128 % 2 = 0) && decide (b1.toNat % 32 = k.idr264)
+    | _ => false
+
+/-- HevcCache.keyFragment: a non-start FU fragment of an IRAP slice -/
+def keyFragment265 (k : NalConsts) (pl : List UInt8) : Bool :=
+  if pl.length < 3 then false
+  else
+    match pl with
+    | b0 :: _ :: b2 :: _ =>
+      let t := b2.toNat % 64
+      decide (b0.toNat / 2 % 64 = k.fu265) && decide (b2.toNat / 128 % 2 = 0) && decide (k.irapLo265 ≤ t ∧ t ≤ k.irapHi265)
+    | _ => false
+
+def Cache.keyFragment (k : NalConsts) (c : Cache) (pl : List UInt8) : Bool :=
+  if c.hevc then keyFragment265 k pl else keyFragment264 k pl
+
 def Cache.classify (k : NalConsts) (c : Cache) (pl : List UInt8) : Option Flags :=
   if c.hevc then classify265 k pl else classify264 k pl
 
@@ -133,8 +156,10 @@ def Cache.pack (k : NalConsts) (c : Cache) (p : Pkt) : Option (Cache × Bool) :=
       else
         -- a key slice that continues the key frame of the previous video packet (same RTP timestamp)
         -- is an ordinary packet of the GOP: it neither restarts the cache nor counts as a key-frame start
+        -- (a later FU fragment of a key slice, same timestamp, does not end the run)
         let key := f.key && c.keyRun != some p.ts
-        let c := { c with keyRun := if f.key then some p.ts else none }
+        let c := { c with keyRun := if f.key then some p.ts
+                                    else if c.keyRun == some p.ts && c.keyFragment k p.payload then c.keyRun else none }
         if c.cacheGop then
           if key then some ({ c with gop := [p] }, key)
           else if c.gop.length > 0 then some ({ c with gop := c.gop ++ [p] }, key)
